@@ -310,6 +310,21 @@ def o6(h, st):
     bad = fop(((0, 1),), 1.0) + fop(((0, 0),), 1.0)
     e = h.raises(lambda: qmap(h, bad, "SCBK", n, ne, utd, spin), ValueError)
     h.check("parity-violating operator rejected", e is not None)
+    # the EXPLICIT arguments decide the sector, whatever annotations (n_spinorbitals, n_electrons, spin) the operator object itself carries - also for the neutral
+    # argument values 0 / None; with a Hamiltonian that is NOT symmetric under exchanging the spin species, so that a wrong sector shows
+    import random
+    from tangelo.toolboxes.operators import FermionOperator as TFermionOperator
+    rnd = random.Random(int(h.integer("seed")) + 17)
+    Ha = H + sum((fop(((2 * p, 1), (2 * p, 0)), rnd.uniform(0.2, 1.0)) for p in range(n_orb)), fop((), 0.0))
+    qa = qmap(h, Ha, "SCBK", n, ne, utd, spin)
+    ev_a = np.sort(np.linalg.eigvalsh(qubit_matrix(qa, n - 2)))
+    ev_fa = np.sort(np.linalg.eigvalsh(fermi_matrix(Ha, n)[np.ix_(idx, idx)]))
+    h.check("same spectrum on the represented sector (spin-asymmetric Hamiltonian)", float(np.max(np.abs(ev_fa - ev_a))) < 1e-8)
+    for tag in ((n, ne, 2), (n, max(0, ne - 1), -1), (n + 2, ne, 3), (n, ne, 0)):
+        Ht = TFermionOperator(None, 1.0, *tag)
+        Ht.terms = dict(Ha.terms)
+        qt = qmap(h, Ht, "SCBK", n, ne, utd, spin)
+        h.check(f"operator annotated with (n_spinorbitals, n_electrons, spin) = {tag}: the explicit arguments ({n}, {ne}, spin {spin}) decide", qeq(qt, qa, 1e-10))
     h.done()
 
 
